@@ -1,4 +1,5 @@
 import UscxmlVerif.Chart.Doc
+import UscxmlVerif.Model.Tok
 /-!
 # Model of `BasicContentExecutor::process` and the interpreter callbacks it uses
 
@@ -14,11 +15,11 @@ namespace UscxmlVerif.Model
 structure XS where
   iq : List String := []          -- internal queue (event names), front first
   eq : List String := []          -- external queue
-  obs : List String := []         -- observations, newest first
+  obs : List Tok := []            -- observations, newest first
   vars : List Int := [0, 0, 0, 0] -- Var0..Var3 (datamodels with variables)
   deriving Repr, Inhabited
 
-def XS.emit (x : XS) (o : String) : XS := { x with obs := o :: x.obs }
+def XS.emit (x : XS) (o : Tok) : XS := { x with obs := o :: x.obs }
 def XS.raise (x : XS) (e : String) : XS := { x with iq := x.iq ++ [e] }
 def XS.sendExt (x : XS) (e : String) : XS := { x with eq := x.eq ++ [e] }
 
@@ -34,29 +35,29 @@ def evalCond (c : Chart) (config : List Nat) (x : XS) : Cond → XS × Bool
 mutual
 /-- `process(element)` for one element; `false` = an error propagated (abort the block) -/
 def exec (c : Chart) (config : List Nat) : Exec → XS → XS × Bool
-  | .raise uv name, x => (((x.emit s!"bc:{uv}").raise name).emit s!"ac:{uv}", true)
-  | .log uv label, x => (((x.emit s!"bc:{uv}").emit s!"log:{label}").emit s!"ac:{uv}", true)
+  | .raise uv name, x => (((x.emit (.bc uv)).raise name).emit (.ac uv), true)
+  | .log uv label, x => (((x.emit (.bc uv)).emit (.log label)).emit (.ac uv), true)
   | .send uv name target, x =>
-    let x := x.emit s!"bc:{uv}"
+    let x := x.emit (.bc uv)
     let x := if target == "#_internal" then x.raise name else x.sendExt name
-    (x.emit s!"ac:{uv}", true)
+    (x.emit (.ac uv), true)
   | .fail uv comm, x =>
-    let x := x.emit s!"bc:{uv}"
+    let x := x.emit (.bc uv)
     let x := x.raise (if comm then "error.communication" else "error.execution")
-    (x.emit s!"ac:{uv}", false)
+    (x.emit (.ac uv), false)
   | .assign uv v k, x =>
-    let x := x.emit s!"bc:{uv}"
+    let x := x.emit (.bc uv)
     let x := { x with vars := x.vars.set v k }
-    (x.emit s!"ac:{uv}", true)
+    (x.emit (.ac uv), true)
   | .incr uv v, x =>
-    let x := x.emit s!"bc:{uv}"
+    let x := x.emit (.bc uv)
     let x := { x with vars := x.vars.set v (x.vars.getD v 0 + 1) }
-    (x.emit s!"ac:{uv}", true)
+    (x.emit (.ac uv), true)
   | .ite uv cond children, x =>
-    let x := x.emit s!"bc:{uv}"
+    let x := x.emit (.bc uv)
     let (x, b) := evalCond c config x cond
     let (x, ok) := execIf c config children b x
-    (x.emit s!"ac:{uv}", ok)
+    (x.emit (.ac uv), ok)
   | .elseif _, x => (x, true)
   | .else_, x => (x, true)
 
